@@ -33,6 +33,9 @@ pub struct Case {
     /// reliable 183) instead of after the call is established
     #[serde(default)]
     pub early: bool,
+    /// with in_dialog (and not early): deliver after the application sent its 200 but before the peer's ACK
+    #[serde(default)]
+    pub before_ack: bool,
     pub rng: u8,
 }
 
@@ -98,7 +101,7 @@ fn base(kind: u8) -> (String, H, Vec<u8>) {
     }
 }
 
-const NUMS: &[&str] = &["0", "1", "9", "10", "11", "4294967294", "4294967295", "4294967296", "18446744073709551615", "18446744073709551616", "-1", "", "x", "1e9", " 7 ", "00000000000000000000000000000001"];
+const NUMS: &[&str] = &["0", "1", "2", "3", "9", "10", "11", "4294967294", "4294967295", "4294967296", "18446744073709551615", "18446744073709551616", "-1", "", "x", "1e9", " 7 ", "00000000000000000000000000000001"];
 const CLENS: &[&str] = &["18446744073709551615", "9223372036854775808", "4294967296", "65536", "65535", "-1", "", "abc", "0x10", "5", "3", "0", " 4 ", "4, 4"];
 const VIAS: &[&str] = &["x", "", "SIP/2.0/UDP", "SIP/2.0/UDP 192.0.2.9;rport", "SIP/2.0/UDP 192.0.2.9;rport=99999999", "SIP/2.0/UDP 192.0.2.9;branch", "SIP/2.0/UDP 192.0.2.9;branch=abc", "SIP/2.0/UDP [::1", "SIP/2.0/UDP 192.0.2.9:99999", "SIP/2.0/UDP 192.0.2.9;maddr=[::;received=", ",", "SIP/2.0/UDP a;branch=z9hG4bKa, ,", "SIP / 2.0 / UDP first.example.com: 4000;ttl=16;maddr=224.2.0.1 ;branch=z9hG4bKa7c6a8dlze.1"];
 const ADDRS: &[&str] = &["<sip:a@b>", "sip:a@b", "\"unbalanced <sip:a@b>;tag=1", "<sip:a@b", "", "sip:", "<sip:a@b>;tag=1;tag=2", "<sip:a@b>;tag", "\"\" <sip:a@b>;tag=e", "<sip:a@[::1]:x>;tag=1", "<sips:%41@b:65536>", "<tel:+1>;tag=t", "*", "<sip:a@b>;tag=%ff", "<sip:a@b?x=%>;tag=1", "<sip:a@b;=;;>;tag=1"];
@@ -280,9 +283,10 @@ fn render(start: &str, h: &H, body: &[u8], lf_only: bool, lead: u8, raw_tail: &[
     out
 }
 
-fn structured() -> BoxedStrategy<(Vec<u8>, Vec<String>)> {
+/// `dialog`: prefer the templates that address the dialog of the set-up call (BYE, re-INVITE, PRACK, ACK, UPDATE)
+fn structured(dialog: bool) -> BoxedStrategy<(Vec<u8>, Vec<String>)> {
     (
-        any::<u8>(),
+        if dialog { prop_oneof![1 => any::<u8>(), 6 => prop_oneof![Just(2u8), Just(5u8), Just(6u8), Just(7u8), Just(8u8)]].boxed() } else { any::<u8>().boxed() },
         prop::collection::vec((any::<u8>(), any::<u16>()), 1..4),
         prop::bool::weighted(0.1),
         prop_oneof![6 => Just(0u8), 1 => Just(1u8), 1 => Just(2u8), 1 => Just(4u8)],
@@ -352,17 +356,20 @@ fn random_bytes() -> BoxedStrategy<(Vec<u8>, Vec<String>)> {
 }
 
 pub fn strategy() -> BoxedStrategy<Case> {
-    (
-        prop_oneof![6 => structured(), 2 => byte_mutated(), 2 => random_bytes()],
-        prop::option::weighted(0.35, prop::collection::vec(any::<u16>(), 0..6)),
-        prop::bool::weighted(0.4),
-        prop::bool::weighted(0.4),
-        any::<u8>(),
-    )
+    prop::bool::weighted(0.4)
+        .prop_flat_map(|in_dialog| {
+            (
+                prop_oneof![6 => structured(in_dialog), 2 => byte_mutated(), 2 => random_bytes()],
+                prop::option::weighted(0.35, prop::collection::vec(any::<u16>(), 0..6)),
+                Just(in_dialog),
+                prop::bool::weighted(0.4),
+                any::<u8>(),
+            )
+        })
         .prop_map(|((bytes, labels), stream_cuts, in_dialog, early, rng)| {
             // in-dialog delivery uses the datagram transport the call was set up on
             let stream_cuts = if in_dialog { None } else { stream_cuts };
-            Case { bytes, labels, stream_cuts, in_dialog, early: early && in_dialog, rng }
+            Case { bytes, labels, stream_cuts, in_dialog, early: early && in_dialog, before_ack: in_dialog && !early && rng % 2 == 1, rng }
         })
         .boxed()
 }
@@ -496,7 +503,13 @@ pub fn check(case: &Case, out: &mut CaseOut) {
     }
     out.class(if case.stream_cuts.is_some() { "as-stream" } else { "as-datagram" });
     if case.in_dialog {
-        out.class(if case.early { "inside-early-dialog(pending INVITE)" } else { "inside-established-dialog" });
+        out.class(if case.early {
+            "inside-early-dialog(pending INVITE)"
+        } else if case.before_ack {
+            "inside-dialog-before-the-ACK"
+        } else {
+            "inside-established-dialog"
+        });
     }
 
     // 1. pure parsers: datagram parser + every typed decoder; stream decoder under the segmentation
@@ -542,6 +555,7 @@ pub fn check(case: &Case, out: &mut CaseOut) {
         let probe_src: SocketAddr = "192.0.2.77:5060".parse().unwrap();
 
         let mut bytes = c.bytes.clone();
+        let mut late_ack: Option<Vec<u8>> = None;
         if c.in_dialog {
             // a plain call first: INVITE (no 100rel), 200 from the application, ACK
             let setup = request_text(
@@ -570,8 +584,12 @@ pub fn check(case: &Case, out: &mut CaseOut) {
                 let ack = request_text(
                     "ACK", "sip:ezk@10.0.0.1", &["SIP/2.0/UDP 192.0.2.9:5060;branch=z9hG4bKsetupack".into()],
                     "<sip:mallory@192.0.2.9>;tag=mt", &format!("<sip:ezk@10.0.0.1>;tag={tag}"), "c02-call", 1, "ACK", &[], b"");
-                inject(&endpoint, &tp, src, &ack);
-                settle().await;
+                if c.before_ack {
+                    late_ack = Some(ack);
+                } else {
+                    inject(&endpoint, &tp, src, &ack);
+                    settle().await;
+                }
                 // put the real tag into the hostile message
                 let needle = b"sometag";
                 while let Some(pos) = bytes.windows(needle.len()).position(|w| w == needle) {
@@ -601,6 +619,11 @@ pub fn check(case: &Case, out: &mut CaseOut) {
                 // keep the connection open while the probes run
                 std::mem::forget(conn);
             }
+        }
+        if let Some(ack) = late_ack {
+            clock.advance(700).await;
+            inject(&endpoint, &tp, src, &ack);
+            settle().await;
         }
         // let timers of whatever the input started run for a while (retransmissions, session timers)
         clock.advance(40_000).await;
